@@ -76,7 +76,8 @@ type World struct {
 	// MemberYields: park at the curve.member yield point (between the member evaluations of a function curve)
 	MemberYields bool
 	restore      *pendingRestore
-	curExec      *kernel.Event
+	curExecByG   map[uint64]*kernel.Event // the command each goroutine is about to start
+	curExecMu    sync.Mutex
 	latCount     map[string]int
 	latMu        sync.Mutex
 
@@ -800,7 +801,12 @@ func (w *World) BeforeExec(executable string, args []string) error {
 	}
 	ev := kernel.NewEvent("exec", executable, "", 2)
 	ev.Args = args
-	w.curExec = ev
+	w.curExecMu.Lock()
+	if w.curExecByG == nil {
+		w.curExecByG = map[uint64]*kernel.Event{}
+	}
+	w.curExecByG[ev.G] = ev // per goroutine: several commands may be on their way at the same time
+	w.curExecMu.Unlock()
 	if w.RaceMode {
 		w.K.Park(ev, nil)
 		return nil
@@ -920,9 +926,14 @@ func (w *World) Yield(site string, id string) {
 	if w.Sampler != nil && !w.RaceMode {
 		ev.Sample = w.Sampler(site, id)
 	}
-	if site == "exec.start" && !w.RaceMode && w.curExec != nil && w.curExec.Site == id {
-		ev.Args = w.curExec.Args
-		ev.Flags |= w.curExec.Flags
+	if site == "exec.start" && !w.RaceMode {
+		w.curExecMu.Lock()
+		cur := w.curExecByG[ev.G]
+		w.curExecMu.Unlock()
+		if cur != nil && cur.Site == id {
+			ev.Args = cur.Args
+			ev.Flags |= cur.Flags
+		}
 	}
 	w.K.Park(ev, nil)
 	if site == "exec.start" && !w.RaceMode {
